@@ -987,3 +987,106 @@ func identOf(e ast.Expr) *ast.Ident {
 	id, _ := ast.Unparen(e).(*ast.Ident)
 	return id
 }
+
+// curProg: the program of the current run (set by Normalize), for helpers that resolve calls without
+// being handed a program.
+var curProg *core.Program
+
+// helperResults: for a call of a function of the same module whose body is straight-line assignments
+// followed by one return (named results or not), the result expressions in the caller's terms:
+// the helper's locals replaced by what they were computed from, its parameters by the arguments.
+// nil when the callee is not of that shape.
+func helperResults(p *core.Program, info *types.Info, call *ast.CallExpr) []ast.Expr {
+	if p == nil {
+		return nil
+	}
+	var id *ast.Ident
+	switch f := ast.Unparen(call.Fun).(type) {
+	case *ast.Ident:
+		id = f
+	case *ast.SelectorExpr:
+		id = f.Sel
+	}
+	if id == nil {
+		return nil
+	}
+	fn, _ := info.Uses[id].(*types.Func)
+	if fn == nil {
+		return nil
+	}
+	hf := p.FuncOf(fn)
+	if hf == nil || hf.Decl.Body == nil || len(hf.Decl.Body.List) == 0 {
+		return nil
+	}
+	sig := fn.Type().(*types.Signature)
+	if sig.Variadic() || sig.Params().Len() != len(call.Args) {
+		return nil
+	}
+	list := hf.Decl.Body.List
+	last, ok := list[len(list)-1].(*ast.ReturnStmt)
+	if !ok {
+		return nil
+	}
+	hinfo := hf.Pkg.TypesInfo
+	for _, st := range list[:len(list)-1] {
+		switch v := st.(type) {
+		case *ast.AssignStmt, *ast.DeclStmt:
+		case *ast.IfStmt:
+			// an early way out that returns constants only (`if os.IsNotExist(err) { return 0, false }`):
+			// the results of interest are those of the final return
+			okGuard := v.Else == nil && len(v.Body.List) == 1
+			if okGuard {
+				rs, isRet := v.Body.List[0].(*ast.ReturnStmt)
+				okGuard = isRet
+				if isRet {
+					for _, re := range rs.Results {
+						if tv, ok := hinfo.Types[re]; !ok || (tv.Value == nil && !tv.IsNil()) {
+							okGuard = false
+						}
+					}
+				}
+			}
+			if !okGuard {
+				return nil
+			}
+		default:
+			return nil
+		}
+	}
+	var rets []ast.Expr
+	if len(last.Results) == 0 {
+		if hf.Decl.Type.Results == nil {
+			return nil
+		}
+		for _, f := range hf.Decl.Type.Results.List {
+			for _, n := range f.Names {
+				rets = append(rets, n)
+			}
+		}
+	} else {
+		rets = last.Results
+	}
+	if len(rets) != sig.Results().Len() || len(rets) == 0 {
+		return nil
+	}
+	repl := map[types.Object]ast.Expr{}
+	i := 0
+	for _, f := range hf.Decl.Type.Params.List {
+		for _, n := range f.Names {
+			if o := hinfo.Defs[n]; o != nil && i < len(call.Args) {
+				repl[o] = call.Args[i]
+			}
+			i++
+		}
+	}
+	var out []ast.Expr
+	for _, re := range rets {
+		ex := expandLocals(hinfo, hf.Decl.Body, re)
+		sub, ok := paths.Subst(info, ex, repl).(ast.Expr)
+		if !ok {
+			return nil
+		}
+		out = append(out, sub)
+	}
+	return out
+}
